@@ -14,6 +14,7 @@ import NurbsVerif.Lemmas.KnotRangeFoldDecompE
 import NurbsVerif.Lemmas.DecompE
 import NurbsVerif.Lemmas.KnotRangeFoldWitness
 import NurbsVerif.Lemmas.SpanBinEval
+import NurbsVerif.Lemmas.SpanREval
 
 /-!
 # C17  Results do not depend on configuration choices
@@ -967,6 +968,76 @@ example : ∃ k, findSpanBin 2 (fnOf cfgKv) cfgNet.length (4999/1000) (1/100) = 
 example : findSpanBin 2 (fnOf cfgKv) 7 (4999/1000) (1/100) = some 6 ∧
     absK (fnOf cfgKv 7 - 4999/1000) ≤ 1/100 ∧
     curvePointAt 2 (fnOf cfgKv) cfgNet 6 5 = [7, 7, 1] ∧ curvePoint 2 (fnOf cfgKv) cfgNet 5 = [7, 7, 1] := by
+  decide +kernel
+
+/-! ### binary search SELECTED, lifted to the REPAIRED searches (statement audit 5, S1)
+
+The `*_binsearch_selected` theorems above are about `findSpanBin`, the search WITHOUT the step back of the F-01b repair,
+and assume `KnotsOk` (non-empty last domain span): `BinTolOk` alone is not enough (`U = [0,0,1,2,4,4,5,5]`, `p = 2`,
+`u = 4 = U_n`: `BinTolOk` holds, `findSpanBin` returns the EMPTY span 4, the real code the span 3).  For the code as it is
+after the repair – `findSpanBinR`, the literal model of `find_span_binsearch` with its step back – the statements hold
+on EVERY valid knot vector (`DomOk`: sorted, `n ≥ p + 1`, `U_p < U_n`; the last domain span may be empty): the span the
+selected binary search returns is the span of the repaired linear search, so the point computed on it is the point of
+C01's `*_eval_repaired_closed` theorems.  `hend`: the tolerance shortcut `|U_n − u| ≤ tol` only fires for parameters of
+the last NON-EMPTY span (what F-17b violates); `0 < tol`, `2·tol < 1`: the start index of the bisection is the code's. -/
+
+/-- **Curves, repaired binary search selected, closed domain of every valid knot vector**: the search returns the span
+    of the repaired linear search, the point computed on it is `curvePointR` (the evaluation C01
+    `curve_eval_repaired_closed` speaks about), and every coordinate is the sum over all control points of the
+    Cox–de Boor recursion of that (legal, non-empty) span. -/
+theorem curve_eval_binsearchR_selected (p d : ℕ) (U : ℕ → K) (P : List (List K)) (hU : DomOk p U P.length)
+    (hP : NetOk d P) (u tol : K) (hlo : U p ≤ u) (hhi : u ≤ U P.length) (htol : 0 < tol) (htol2 : 2 * tol < 1)
+    (hend : absK (U P.length - u) ≤ tol → U (findSpanLinearR p U P.length (U P.length)) ≤ u) :
+    ∃ k, findSpanBinR p U P.length u tol = some k ∧ k = findSpanLinearR p U P.length u ∧
+      p ≤ k ∧ k < P.length ∧ U k < U (k + 1) ∧ U k ≤ u ∧ u ≤ U (k + 1) ∧
+      curvePointAt p U P k u = curvePointR p U P u ∧
+      ∀ j, (curvePointAt p U P k u).getD j 0
+        = ∑ i ∈ Finset.range P.length, cdbSpan U k p i u * (ptsGet P i).getD j 0 := by
+  obtain ⟨a1, a2, a3, a4, a5, _⟩ := findSpanLinearR_dom p U P.length u hU.pn hU.mono hU.dom hlo hhi
+  exact ⟨_, Geomdl.findSpanBinR_eq_linearR p U P.length u tol hU.pn hU.mono hlo hhi (le_of_lt htol) hend, rfl,
+    a1, a2, a3, a4, a5, rfl, fun j => curvePointR_eq_cdbSpan p U P u d j hU.pn hP⟩
+
+/-- **Surfaces, repaired binary search selected in both directions**: the two spans are the spans of the repaired
+    linear search and the point computed on them is `surfacePointR` (C01 `surface_eval_repaired_closed`,
+    `rational_surface_eval_repaired_closed`). -/
+theorem surface_eval_binsearchR_selected (pu pv : ℕ) (Uu Uv : ℕ → K) (su sv : ℕ) (P : List (List K))
+    (hUu : DomOk pu Uu su) (hUv : DomOk pv Uv sv) (u v tol : K)
+    (hu1 : Uu pu ≤ u) (hu2 : u ≤ Uu su) (hv1 : Uv pv ≤ v) (hv2 : v ≤ Uv sv) (htol : 0 < tol) (htol2 : 2 * tol < 1)
+    (hendu : absK (Uu su - u) ≤ tol → Uu (findSpanLinearR pu Uu su (Uu su)) ≤ u)
+    (hendv : absK (Uv sv - v) ≤ tol → Uv (findSpanLinearR pv Uv sv (Uv sv)) ≤ v) :
+    ∃ ku kv, findSpanBinR pu Uu su u tol = some ku ∧ findSpanBinR pv Uv sv v tol = some kv ∧
+      ku = findSpanLinearR pu Uu su u ∧ kv = findSpanLinearR pv Uv sv v ∧
+      surfacePointAt pu pv Uu Uv sv P ku kv u v = surfacePointR pu pv Uu Uv su sv P u v :=
+  ⟨_, _, Geomdl.findSpanBinR_eq_linearR pu Uu su u tol hUu.pn hUu.mono hu1 hu2 (le_of_lt htol) hendu,
+    Geomdl.findSpanBinR_eq_linearR pv Uv sv v tol hUv.pn hUv.mono hv1 hv2 (le_of_lt htol) hendv, rfl, rfl, rfl⟩
+
+/-- **Volumes, repaired binary search selected in the three directions** (C01 `volume_eval_repaired_closed`). -/
+theorem volume_eval_binsearchR_selected (pu pv pw : ℕ) (Uu Uv Uw : ℕ → K) (su sv sw : ℕ) (P : List (List K))
+    (hUu : DomOk pu Uu su) (hUv : DomOk pv Uv sv) (hUw : DomOk pw Uw sw) (u v w tol : K)
+    (hu1 : Uu pu ≤ u) (hu2 : u ≤ Uu su) (hv1 : Uv pv ≤ v) (hv2 : v ≤ Uv sv) (hw1 : Uw pw ≤ w) (hw2 : w ≤ Uw sw)
+    (htol : 0 < tol) (htol2 : 2 * tol < 1)
+    (hendu : absK (Uu su - u) ≤ tol → Uu (findSpanLinearR pu Uu su (Uu su)) ≤ u)
+    (hendv : absK (Uv sv - v) ≤ tol → Uv (findSpanLinearR pv Uv sv (Uv sv)) ≤ v)
+    (hendw : absK (Uw sw - w) ≤ tol → Uw (findSpanLinearR pw Uw sw (Uw sw)) ≤ w) :
+    ∃ ku kv kw, findSpanBinR pu Uu su u tol = some ku ∧ findSpanBinR pv Uv sv v tol = some kv ∧
+      findSpanBinR pw Uw sw w tol = some kw ∧
+      volumePointAt pu pv pw Uu Uv Uw su sv P ku kv kw u v w = volumePointR pu pv pw Uu Uv Uw su sv sw P u v w :=
+  ⟨_, _, _, Geomdl.findSpanBinR_eq_linearR pu Uu su u tol hUu.pn hUu.mono hu1 hu2 (le_of_lt htol) hendu,
+    Geomdl.findSpanBinR_eq_linearR pv Uv sv v tol hUv.pn hUv.mono hv1 hv2 (le_of_lt htol) hendv,
+    Geomdl.findSpanBinR_eq_linearR pw Uw sw w tol hUw.pn hUw.mono hw1 hw2 (le_of_lt htol) hendw, rfl⟩
+
+/-- non-vacuity, on the audit's witness: `U = [0,0,1,2,4,4,5,5]`, degree 2, five control points, `u = 4 = U_n` (EMPTY last
+    span), `tol = 10⁻⁵`: the repaired binary search returns span 3 and the point is the repaired evaluation `(3, 1)` -/
+example : ∃ k, findSpanBinR 2 (fnOf ([0,0,1,2,4,4,5,5] : List ℚ)) 5 4 (1/100000) = some k ∧ k = 3 ∧
+    curvePointAt 2 (fnOf ([0,0,1,2,4,4,5,5] : List ℚ)) [[0,0],[1,1],[2,0],[3,1],[4,0]] k 4
+      = curvePointR 2 (fnOf ([0,0,1,2,4,4,5,5] : List ℚ)) [[0,0],[1,1],[2,0],[3,1],[4,0]] 4 := by
+  obtain ⟨k, h1, h2, _, _, _, _, _, h3, _⟩ := curve_eval_binsearchR_selected 2 2 (fnOf ([0,0,1,2,4,4,5,5] : List ℚ))
+    [[0,0],[1,1],[2,0],[3,1],[4,0]] ⟨mono_of_pairwise _ (by decide +kernel), by decide, by decide +kernel⟩
+    (by intro pt hpt; simp at hpt; rcases hpt with h | h | h | h | h <;> simp [h]) 4 (1/100000)
+    (by decide +kernel) (by decide +kernel) (by norm_num) (by norm_num) (fun _ => by decide +kernel)
+  refine ⟨k, h1, ?_, h3⟩
+  rw [h2]; decide +kernel
+example : curvePointR 2 (fnOf ([0,0,1,2,4,4,5,5] : List ℚ)) [[0,0],[1,1],[2,0],[3,1],[4,0]] 4 = [3, 1] := by
   decide +kernel
 
 end C17
